@@ -270,6 +270,9 @@ def run_reactor(case, want_smarts=False, prune=True):
         elif tform == "synrule":
             from synkit.Rule import SynRule
             tpl_arg = SynRule(tpl, implicit_h=False) if cfg.get("implicit_temp") else SynRule(tpl)
+        elif tform == "synrule-raw":
+            from synkit.Rule import SynRule
+            tpl_arg = SynRule(copy.deepcopy(tpl), implicit_h=False)      # hand-written rule (own hydrogen counts and h_pairs), whatever the reactor's mode
         else:
             tpl_arg = tpl
         sobj = case["_shared_sub"] if "_shared_sub" in case else sub_obj(case["sub"], case.get("sub_form"))
@@ -323,6 +326,10 @@ def run_reactor(case, want_smarts=False, prune=True):
             rec.its_err = None
         except StopIteration:
             rec.its_list = []
+            rec.its_err = "StopIteration"
+        if rec.script_vals is not None and any(code == "raise" for _, code, _ in rec.script_vals):
+            # a scripted read raised (StopIteration inside _explicit_h): the reads made here afterwards find the cache filled with the
+            # glued graphs and do not raise -- the run is a crashed one
             rec.its_err = "StopIteration"
         if want_smarts:
             rec.smarts = list(R.smarts_list) if rec.its_err is None else []
